@@ -26,6 +26,7 @@ Example C03_cellwise_nonvacuous :
                  (Bin (Alg Sub) (Const (@CVec QcOps false [Q2Qc 1; Q2Qc 2])) (Bin (Alg Mul) (Leaf 0) (Un Neg (Leaf 1)))) = OK (VF f)
             /\ Forall (wf_leaf QcOps 1 wmesh) [wf1; wf2].
 Proof. eexists. split; [vm_compute; reflexivity|]. repeat constructor. Qed.
+Print Assumptions C03_cellwise_nonvacuous.
 
 (* fields on different meshes are rejected (allclose for the operators / ufuncs, == for <<) *)
 Theorem C03_reject_other_mesh : forall (K : FOps) un bin o (f g : field K),
@@ -90,6 +91,7 @@ Print Assumptions C03_stack_components.
 Example C03_stack_components_nonvacuous :
   exists r, eval QcOps (fun _ x => x) (fun _ x _ => x) [wf1] (stack_from QcOps (Leaf 0) 1) = OK (VF r).
 Proof. eexists. vm_compute. reflexivity. Qed.
+Print Assumptions C03_stack_components_nonvacuous.
 
 (* operands stay untouched: evaluation is a function of the operands (no state), and the only
    expressions that hand an operand object back are +(+(...f)) *)
